@@ -4,6 +4,7 @@ import (
 	"fmt"
 	"net/url"
 	"regexp"
+	"regexp/syntax"
 	"strconv"
 	"strings"
 )
@@ -125,7 +126,9 @@ func Classify(s *Segment) (*Seg, RejectCategory) {
 					out.Kind = KOdd
 					return out, RejOdd
 				}
-				sub, err := regexp.Compile(p.Value)
+				// Each expression stands on its own: it is parsed separately and embedded through its syntax tree, so
+				// that nothing in it (an unterminated \Q, an inline flag) can reach across its own parentheses.
+				sub, err := syntax.Parse(p.Value, syntax.Perl)
 				if err != nil {
 					return out, RejBadExpr
 				}
@@ -133,8 +136,8 @@ func Classify(s *Segment) (*Seg, RejectCategory) {
 				out.Binds = append(out.Binds, p.Name)
 				out.Groups = append(out.Groups, g)
 				out.Exprs = append(out.Exprs, p.Value)
-				g += sub.NumSubexp()
-				sb.WriteString("(" + p.Value + ")")
+				g += sub.MaxCap()
+				sb.WriteString("(" + sub.String() + ")")
 			}
 		}
 	}
